@@ -26,6 +26,7 @@ ASSUMPTIONS = [
 BOUNDS = {"quick": "DPOP on pair and chain-3 (min and max), distributions: one agent per computation / all on one agent / first two together; canonical DPOP schedule, all interleavings of the management messages",
           "thorough": "quick + triangle and pair with variable cost, all DPOP schedules on the pair; start-up on chain-3 with two spare agents",
           }
+BOUNDS["quick"] += "; pair whose domains hold falsy values other than the integer 0 (0.0, the empty string)"
 BOUNDS["quick"] += ("; Orchestrator.run() executed by a helper thread in lockstep with the handling of the run order and of the "
                     "agents' messages (pair, one agent per computation, tables in [0, 3]), every interleaving at the "
                     "synchronisation points")
@@ -49,6 +50,8 @@ def jobs(tier):
         out.append({"name": "pair-min-allsched", "spec": spec("pair", "min"), "fixed": False})
     # start-up phase: registration of used and spare agents, deployment, computation registration, run order
     # the thread calling Orchestrator.run(), in lockstep with the orchestrator's own thread
+    # domain values that are falsy without being the integer 0 (0.0, the empty string)
+    out.append({"name": "pair-min-falsy-values", "spec": spec("pair", "min", domain_values={"x": [0.0, 1.0], "y": ["", "b"]}), "fixed": True})
     out.append({"name": "runloop-pair", "spec": spec("pair", "min"), "runloop": True})
     out.append({"name": "startup-pair", "spec": spec("pair", "min"), "startup": True, "spares": ["a"] if tier == "quick" else ["a", "zz"]})
     # chain-3: the directory round trip is replaced by its effect (register_* with publish=False on the orchestrator's
